@@ -114,6 +114,8 @@ pub fn build(
 
         let vftable_path = vftable_type.path.clone();
         let vftable_pointer_type = Type::ConstPointer(Box::new(Type::Raw(vftable_path)));
+        #[cfg(pyxis_verif)]
+        crate::verif::probe("vftable:item_inserted");
         semantic.add_item(vftable_type)?;
 
         if let Some((base_name, base_vftable)) = get_optional_region_name_and_vftable(
